@@ -3,6 +3,16 @@
 pub open spec fn boxes_bumped(post: Seq<SysBox>, pre: Seq<SysBox>, k: nat) -> bool {
     post.len() == pre.len() && forall|p: int| 0 <= p < pre.len() ==> (#[trigger] post[p]).ident() == pre[p].ident() && post[p].runs() == pre[p].runs() + k
 }
+// every box kept its identity (what C13 needs of the run paths: hooks reach the same systems afterwards)
+pub open spec fn boxes_same(post: Seq<SysBox>, pre: Seq<SysBox>) -> bool {
+    post.len() == pre.len() && forall|p: int| 0 <= p < pre.len() ==> (#[trigger] post[p]).ident() == pre[p].ident()
+}
+pub open spec fn groups_same(post: GroupsT, pre: GroupsT) -> bool {
+    post.len() == pre.len() && forall|g: int| 0 <= g < pre.len() ==> boxes_same(#[trigger] post[g]@, pre[g]@)
+}
+pub open spec fn stages_same(post: Seq<Stage>, pre: Seq<Stage>) -> bool {
+    post.len() == pre.len() && forall|s: int| 0 <= s < pre.len() ==> groups_same(#[trigger] post[s].groups@, pre[s].groups@)
+}
 pub open spec fn setup_trace_of(b: Seq<SysBox>) -> Seq<int> decreases b.len() {
     if b.len() == 0 { Seq::empty() } else { setup_trace_of(b.drop_last()) + b.last().ident().setup }
 }
@@ -91,16 +101,19 @@ pub proof fn lemma_stages_dispose_front(ss: Seq<Stage>)
 }
 impl Stage {
     pub open spec fn bumped(&self, pre: &Stage, k: nat) -> bool { groups_bumped(self.groups@, pre.groups@, k) }
+    pub open spec fn same(&self, pre: &Stage) -> bool { groups_same(self.groups@, pre.groups@) }
     pub open spec fn setup_trace(&self) -> Seq<int> { groups_setup_trace(self.groups@) }
     pub open spec fn dispose_trace(&self) -> Seq<int> { groups_dispose_trace(self.groups@) }
 }
 impl SendDispatcher {
     pub open spec fn bumped(&self, pre: &SendDispatcher, k: nat) -> bool { stages_bumped(self.stages@, pre.stages@, k) }
+    pub open spec fn same(&self, pre: &SendDispatcher) -> bool { stages_same(self.stages@, pre.stages@) }
     pub open spec fn setup_trace(&self) -> Seq<int> { stages_setup_trace(self.stages@) }
     pub open spec fn dispose_trace(&self) -> Seq<int> { stages_dispose_trace(self.stages@) }
 }
 impl Dispatcher {
     pub open spec fn bumped(&self, pre: &Dispatcher, k: nat) -> bool { self.inner.bumped(&pre.inner, k) && boxes_bumped(self.thread_local@, pre.thread_local@, k) }
+    pub open spec fn same(&self, pre: &Dispatcher) -> bool { self.inner.same(&pre.inner) && boxes_same(self.thread_local@, pre.thread_local@) }
     // C12 / C13: the staged part first, then the thread-local systems in registration order
     pub open spec fn setup_trace(&self) -> Seq<int> { self.inner.setup_trace() + setup_trace_of(self.thread_local@) }
     pub open spec fn dispose_trace(&self) -> Seq<int> { self.inner.dispose_trace() + dispose_trace_of(self.thread_local@) }
@@ -132,50 +145,65 @@ pub proof fn lemma_stages_bumped_trans(c: Seq<Stage>, b: Seq<Stage>, a: Seq<Stag
     }
 }
 // hook traces depend on identities only
-pub proof fn lemma_boxes_bumped_traces(post: Seq<SysBox>, pre: Seq<SysBox>, k: nat)
-    requires boxes_bumped(post, pre, k)
+pub proof fn lemma_boxes_same_traces(post: Seq<SysBox>, pre: Seq<SysBox>)
+    requires boxes_same(post, pre)
     ensures setup_trace_of(post) == setup_trace_of(pre), dispose_trace_of(post) == dispose_trace_of(pre)
     decreases pre.len()
 {
     if pre.len() > 0 {
-        assert(boxes_bumped(post.drop_last(), pre.drop_last(), k)) by {
-            assert forall|p: int| 0 <= p < pre.drop_last().len() implies (#[trigger] post.drop_last()[p]).ident() == pre.drop_last()[p].ident() && post.drop_last()[p].runs() == pre.drop_last()[p].runs() + k by {
+        assert(boxes_same(post.drop_last(), pre.drop_last())) by {
+            assert forall|p: int| 0 <= p < pre.drop_last().len() implies (#[trigger] post.drop_last()[p]).ident() == pre.drop_last()[p].ident() by {
                 assert(post[p].ident() == pre[p].ident());
             }
         }
-        lemma_boxes_bumped_traces(post.drop_last(), pre.drop_last(), k);
+        lemma_boxes_same_traces(post.drop_last(), pre.drop_last());
         assert(post[pre.len() - 1].ident() == pre[pre.len() - 1].ident());
     }
 }
-pub proof fn lemma_groups_bumped_traces(post: GroupsT, pre: GroupsT, k: nat)
-    requires groups_bumped(post, pre, k)
+pub proof fn lemma_groups_same_traces(post: GroupsT, pre: GroupsT)
+    requires groups_same(post, pre)
     ensures groups_setup_trace(post) == groups_setup_trace(pre), groups_dispose_trace(post) == groups_dispose_trace(pre)
     decreases pre.len()
 {
     if pre.len() > 0 {
-        assert(groups_bumped(post.drop_last(), pre.drop_last(), k)) by {
-            assert forall|g: int| 0 <= g < pre.drop_last().len() implies boxes_bumped(#[trigger] post.drop_last()[g]@, pre.drop_last()[g]@, k) by {
-                assert(boxes_bumped(post[g]@, pre[g]@, k));
+        assert(groups_same(post.drop_last(), pre.drop_last())) by {
+            assert forall|g: int| 0 <= g < pre.drop_last().len() implies boxes_same(#[trigger] post.drop_last()[g]@, pre.drop_last()[g]@) by {
+                assert(boxes_same(post[g]@, pre[g]@));
             }
         }
-        lemma_groups_bumped_traces(post.drop_last(), pre.drop_last(), k);
-        assert(boxes_bumped(post[pre.len() - 1]@, pre[pre.len() - 1]@, k));
-        lemma_boxes_bumped_traces(post.last()@, pre.last()@, k);
+        lemma_groups_same_traces(post.drop_last(), pre.drop_last());
+        assert(boxes_same(post[pre.len() - 1]@, pre[pre.len() - 1]@));
+        lemma_boxes_same_traces(post.last()@, pre.last()@);
     }
 }
-pub proof fn lemma_stages_bumped_traces(post: Seq<Stage>, pre: Seq<Stage>, k: nat)
-    requires stages_bumped(post, pre, k)
+pub proof fn lemma_stages_same_traces(post: Seq<Stage>, pre: Seq<Stage>)
+    requires stages_same(post, pre)
     ensures stages_setup_trace(post) == stages_setup_trace(pre), stages_dispose_trace(post) == stages_dispose_trace(pre)
     decreases pre.len()
 {
     if pre.len() > 0 {
-        assert(stages_bumped(post.drop_last(), pre.drop_last(), k)) by {
-            assert forall|s: int| 0 <= s < pre.drop_last().len() implies groups_bumped(#[trigger] post.drop_last()[s].groups@, pre.drop_last()[s].groups@, k) by {
-                assert(groups_bumped(post[s].groups@, pre[s].groups@, k));
+        assert(stages_same(post.drop_last(), pre.drop_last())) by {
+            assert forall|s: int| 0 <= s < pre.drop_last().len() implies groups_same(#[trigger] post.drop_last()[s].groups@, pre.drop_last()[s].groups@) by {
+                assert(groups_same(post[s].groups@, pre[s].groups@));
             }
         }
-        lemma_stages_bumped_traces(post.drop_last(), pre.drop_last(), k);
-        assert(groups_bumped(post[pre.len() - 1].groups@, pre[pre.len() - 1].groups@, k));
-        lemma_groups_bumped_traces(post.last().groups@, pre.last().groups@, k);
+        lemma_stages_same_traces(post.drop_last(), pre.drop_last());
+        assert(groups_same(post[pre.len() - 1].groups@, pre[pre.len() - 1].groups@));
+        lemma_groups_same_traces(post.last().groups@, pre.last().groups@);
+    }
+}
+pub proof fn lemma_boxes_same_trans(c: Seq<SysBox>, b: Seq<SysBox>, a: Seq<SysBox>)
+    requires boxes_same(c, b), boxes_same(b, a)
+    ensures boxes_same(c, a)
+{
+    assert forall|p: int| 0 <= p < a.len() implies (#[trigger] c[p]).ident() == a[p].ident() by { assert(b[p].ident() == a[p].ident()); }
+}
+pub proof fn lemma_groups_same_trans(c: GroupsT, b: GroupsT, a: GroupsT)
+    requires groups_same(c, b), groups_same(b, a)
+    ensures groups_same(c, a)
+{
+    assert forall|g: int| 0 <= g < a.len() implies boxes_same(#[trigger] c[g]@, a[g]@) by {
+        assert(boxes_same(b[g]@, a[g]@));
+        lemma_boxes_same_trans(c[g]@, b[g]@, a[g]@);
     }
 }
